@@ -111,3 +111,19 @@ def locate(soup, a):
             return None
         cur = nxt
     return None
+
+
+BIG_UNIT = '\\section{S%d} text $x_{%d}$ and \\textbf{b%d} %% c\n\\begin{itemize}\\item a%d \\item[l] b\\end{itemize}\n\n'
+
+
+def big_source(size):
+    """A well-formed document of exactly `size` characters (buffer / block sizes of readers are powers of two)."""
+    parts, n, k = [], 0, 0
+    while True:
+        u = BIG_UNIT % (k, k, k, k)
+        if n + len(u) > size:
+            break
+        parts.append(u)
+        n += len(u)
+        k += 1
+    return ''.join(parts) + 'x' * (size - n)
